@@ -27,17 +27,18 @@ def correspond(ctx):
             fails.append(Failure('correspondence', 'loop:escape', f'{res["name"]}: {res["escape"]}',
                                  {'scenario': res['name'], 'actions': res['actions'], 'conf': res['conf'],
                                   'seed': res['seed']}))
-    return fails
+    # Props/C08E.v is stated about the endpoint model (Endpoint.v over Hdl.v): tied by the endpoint-history correspondence
+    from props import hdl
+    return fails + hdl.tie(ctx)
 
 
 # ---------------------------------------------------------------------------------------------
 # oracle on the real code
 
 def snap(ep):
-    s = ep.snapshot()
-    for x in s:
-        x.pop('start_dpd_at', None)      # an authentic duplicate legitimately resets the liveness timer
-    return s
+    # everything, the liveness timer included: a message outside the window is dropped WITHOUT effect (until the fix of
+    # F23 an authentic copy of an old message re-armed the dead-peer-detection timer, and this oracle let it pass)
+    return ep.snapshot()
 
 
 class WindowOracle:
@@ -257,6 +258,15 @@ def oracle(ctx, deep):
     return run_oracle(ctx, runs)
 
 
+def regressions(ctx):
+    """F23: an authentic copy of an OLD message (here the IKE_AUTH request and response, delivered again 5 and 8 s
+    later) used to re-arm the dead-peer-detection timer of the IKE_SA although it is outside the window and must be
+    dropped without effect."""
+    from sim.scenarios import scripted
+    acts = scripted('handshake') + [['tick', 5], ['replay', 2], ['tick', 3], ['replay', 3], ['deliver', 0]]
+    return run_oracle(ctx, [('F23_stale_copies_after_time', {}, acts)])
+
+
 def replay(ctx, obj):
     if 'actions' not in obj:
         return []
@@ -264,14 +274,14 @@ def replay(ctx, obj):
 
 
 CHECK = core.Check(
-    'C08', sc.CLUSTER, 'Props/C08.v', translate=sc.translate, correspond=correspond, oracle=oracle, replay=replay,
-    deps=('lib',),
+    'C08', sc.CLUSTER, ['Props/C08.v', 'Props/C08E.v'], translate=sc.translate, correspond=correspond, oracle=oracle,
+    replay=replay, regressions=regressions, deps=('lib',),
     rule='histories of the two-endpoint simulator through the real main_loop: 19 scripted exchanges x configuration '
          'family + seeded random walks over {acquire, soft/hard expire, IKE rekey/delete, deliver, duplicate, drop, '
          'replay of any earlier datagram, tick}; each recorded IkeSa.process_message / trigger call is one case; '
          'non-trivial = the Message ID differs from the expected one (replays, stale and future IDs); the oracle '
          'additionally re-delivers every datagram an endpoint already received after every step',
-    trusted_base=sc.TRUSTED,
+    trusted_base=sc.TRUSTED + __import__('props.hdl', fromlist=['TRUSTED']).TRUSTED,
     assumptions=['handlers touch the window fields only as the recorded outcomes say (checked on every recorded call)',
                  'Message IDs are compared as the parser delivers them (unsigned 32 bit)'],
 )
